@@ -8,7 +8,8 @@ T1  spec/RenamerImpl.tla models the naming mechanisms as written in the pinned t
     the verdict on the real code comes from T2/T3).
 T2  TLC (RenamerEnum) emits every problem skeleton of the universes; each is built as a real problem and
     written by PDDLWriter / ANMLWriter on first use, and by PDDLWriter after a writer for a temporal problem
-    with a trajectory constraint.
+    with a trajectory constraint.  One universe is about user types and PDDL's root type `object` (case
+    variants and mangled forms of `object` as the only type, next to a second type, in a type hierarchy).
 T3  Seeded G2 problems (harness/gen.py, classical / temporal / trajectory constraints / metrics) whose
     identifiers are replaced through a seeded substitution by adversarial ones (case variants, keywords of
     both languages, symbols, unicode, leading digits, mangled forms, empty-ish names), written on first use
@@ -1315,7 +1316,8 @@ def run(ctx):
         "for a temporal (or constrained) problem; first use = reloaded writer modules, and for a sample a new process. "
         "T3: %d seeded G2 problems (classical with metrics, state invariants / "
         "trajectory constraints, temporal) with identifiers substituted from adversarial pools (case variants, keywords, "
-        "symbols, unicode, leading digits, mangled forms, empty-ish), each written on first use and after another problem. "
+        "symbols, unicode, leading digits, mangled forms, empty-ish, forms of PDDL's root type `object`), each written on first "
+        "use and after another problem. "
         "A case is counted non-trivial when some element had to be renamed." % (t1u[:3], fams, len(corpus))
     )
     ctx.cov["exhaustive"] = True
@@ -1324,7 +1326,8 @@ def run(ctx):
         "valid identifiers: PDDL = letter then letters/digits/'-'/'_' (both PDDL readers' grammar), '?' + identifier for variables; "
         "ANML = anml_grammar.py's Word(alphas + '_', alphanums + '_'); PDDL names compared ignoring ASCII case",
         "keywords are the sets defined in the writer modules (read in a fresh process); the PDDL fragment's set follows the "
-        "problem's features (durative actions, trajectory constraints)",
+        "problem's features (durative actions, trajectory constraints); in the PDDL type namespace `object` (the predefined "
+        "root type) is reserved as soon as the problem has more than one user type",
         "ANML names are harvested from the declarations of the emitted text by the driver's line tokenizer and paired with model "
         "elements by declaration order; the adversarial symbols exclude parentheses, braces, commas, semicolons and line breaks",
         "RenamerImpl models str.lower() on ASCII only",
